@@ -1286,7 +1286,10 @@ class Engine:
                 if npk is None:
                     raise PyRaise(ZeroDivisionError, "integer division or modulo by zero", self.cur_line)
                 raise Unsupported("numpy integer division by zero (returns 0 with a warning)")
-            r = fdiv(x, y) if op == "//" else fmod(x, y)
+            if conc_int(y) is None and self.decide_iv(y > 0):
+                r = (x / y) if op == "//" else (x % y)
+            else:
+                r = fdiv(x, y) if op == "//" else fmod(x, y)
         elif op == "<<":
             if not self.branch(y >= 0):
                 raise PyRaise(ValueError, "negative shift count", self.cur_line)
@@ -1412,11 +1415,26 @@ class Engine:
             n = na * (D // da) + nb * (D // db) if op == "+" else na * (D // da) - nb * (D // db)
             n = simp(n)
             return (n, D) if self.fits_mantissa(n, kind) else None
+        if op == "%":
+            if da != 1 or db != 1:
+                return None
+            if conc_int(nb) == 0:
+                return None
+            r = simp(na % nb) if self.decide_iv(nb > 0) else simp(fmod(na, nb))
+            return (r, 1)
+        if op == "//":
+            # floor((na/da) / (nb/db)) = floor(na*db / (nb*da)); the result of float floor division is integral
+            num = simp(na * db)
+            den = simp(nb * da)
+            if conc_int(den) == 0:
+                return None
+            r = simp(num / den) if self.decide_iv(den > 0) else simp(fdiv(num, den))
+            return (r, 1) if self.fits_mantissa(r, kind) else None
         if op == "*":
             ca, cb = conc_int(na), conc_int(nb)
-            if ca is None and cb is None:
-                return None
             n = simp(na * nb)
+            if ca is None and cb is None:
+                return (n, da * db) if self.fits_mantissa(n, kind) else None
             # multiplication by a power of two only changes the exponent
             pow2 = any(c is not None and c != 0 and (abs(c) & (abs(c) - 1)) == 0 for c in (ca, cb))
             if pow2:
@@ -1471,12 +1489,21 @@ class Engine:
                 if not self.branch(z3.Not(z3.fpIsZero(y))):
                     raise PyRaise(ZeroDivisionError, "float division by zero", self.cur_line)
             r = z3.fpDiv(RNE, x, y)
+        elif op in ("//", "%"):
+            if not self.branch(z3.Not(z3.fpIsZero(y))):
+                raise PyRaise(ZeroDivisionError, "float floor division by zero", self.cur_line)
+            r = z3.fpRoundToIntegral(z3.RTN(), z3.fpDiv(RNE, x, y))  # placeholder term; the value is carried by q below
         else:
             raise Unsupported("float op %s" % op)
         q = None
         qa, qb = self.q_of(a), self.q_of(b)
         if qa is not None and qb is not None:
             q = self.q_binop(op, qa, qb, kind)
+        if op in ("//", "%") and q is None:
+            raise Unsupported("float floor division / modulo outside the exact dyadic fragment")
+        if op in ("//", "%"):
+            # define the FP term from the exact value so that both views agree
+            r = z3.fpToFP(RNE, z3.ToReal(q[0]) / q[1], fsort(kind))
         return VFloat(r, kind, isnp, q)
 
     def to_float_weak(self, v, kind):
@@ -1502,7 +1529,7 @@ class Engine:
             except (ValueError, ZeroDivisionError, OverflowError):
                 pass
         if isinstance(a, VFloat) or isinstance(b, VFloat):
-            if op in ("+", "-", "*", "/"):
+            if op in ("+", "-", "*", "/", "//", "%"):
                 return self.float_binop(op, a, b)
             raise Unsupported("float op %s" % op)
         ia, ib = self.as_int(a), self.as_int(b)
